@@ -126,6 +126,29 @@ def explore(pid, cases, rep, nontrivial, extra_checks=(), keep=None, use_corpus=
                             stats["side_tree_fail_" + nm] += 1
             else:
                 stats["side_tree_not_evaluated"] += 1
+    # C04: the hypotheses of the universal bisimulation theorem (C04_hw_bisimulation_decidable), evaluated per accepted
+    # XY description on the grid spec.xy_grid derives from the description alone: where all hold, "same outcome as on the
+    # ideal grid for every pair and every target coordinate" is a THEOREM about the model's netlist
+    if pid == "C04":
+        acc = [i for i, m in enumerate(mods) if isinstance(m, list) and m and m[0] == "ok" and spec.xy_grid(cases[i][0]) is not None]
+        xreqs = []
+        for i in acc:
+            g = spec.xy_grid(cases[i][0])
+            xreqs.append(modelio.request(cases[i][0], cmd="xy")[:-1] + " " +
+                         common.sx([g[0], g[1], [[a, x, y, q] for a, x, y, q in g[2]]]) + ")")
+        xouts = common.run_model(xreqs) if xreqs else []
+        names = ["xy_routing", "one_auto_connected_array", "attachments_match_ports", "interfaces_on_their_ports"]
+        for i, sd in zip(acc, xouts):
+            if isinstance(sd, list) and sd and sd[0] == "ok":
+                flags = [b is True for b in sd[1:]]
+                if all(flags) and len(flags) == len(names):
+                    stats["side_bisim_theorem_applies"] += 1
+                else:
+                    for nm, b in zip(names, flags):
+                        if not b:
+                            stats["side_bisim_fail_" + nm] += 1
+            else:
+                stats["side_bisim_not_evaluated"] += 1
     for i, ((d, t), r) in enumerate(zip(cases, res)):
         dist[f"{t.get('topo')}/{d['routing']['route_algo']}/{'nw' if d['network_type'] != 'axi' else 'axi'}"] += 1
         if not r["ok"]:
